@@ -103,6 +103,7 @@ type GSchema struct {
 	BadRoot      string   // fault: schema block names a missing type
 	Extra        []string // raw chunks: extensions of built-in (prelude) types
 	Faults       []string
+	FaultyTypes  map[string]bool // types InjectSchemaFaults changed
 	idx          map[string]*GType
 }
 
@@ -842,18 +843,32 @@ func (t *GType) renderExt(b *strings.Builder) {
 // Render produces the SDL text, definitions in a seeded order, one field per
 // line (so that the line-based text shrinker works well).
 func (s *GSchema) Render(r *Rng) string {
+	text, _ := s.RenderMarked(r, false)
+	return text
+}
+
+// RenderMarked is Render; with front it additionally tries to put a definition
+// that InjectSchemaFaults changed first, and it returns the offsets at which
+// the other changed definitions start - cut there, every resulting source file
+// begins with a faulty definition (several candidates for "the first error",
+// now across files).
+func (s *GSchema) RenderMarked(r *Rng, front bool) (string, []int) {
 	var chunks []string
+	var faulty []bool
 	for _, t := range s.Types {
 		var b strings.Builder
 		t.render(&b)
 		chunks = append(chunks, b.String())
+		faulty = append(faulty, s.FaultyTypes[t.Name])
 		if t.Twice {
 			chunks = append(chunks, b.String())
+			faulty = append(faulty, false)
 		}
 		var e strings.Builder
 		t.renderExt(&e)
 		if e.Len() > 0 {
 			chunks = append(chunks, e.String())
+			faulty = append(faulty, false)
 		}
 	}
 	for _, d := range s.Dirs {
@@ -882,11 +897,32 @@ func (s *GSchema) Render(r *Rng) string {
 		chunks = append(chunks, x)
 	}
 	chunks = append(chunks, s.Extra...)
+	for len(faulty) < len(chunks) {
+		faulty = append(faulty, false)
+	}
 	for i := len(chunks) - 1; i > 0; i-- {
 		j := r.Intn(i + 1)
 		chunks[i], chunks[j] = chunks[j], chunks[i]
+		faulty[i], faulty[j] = faulty[j], faulty[i]
 	}
-	return strings.Join(chunks, "\n")
+	if front {
+		for i, f := range faulty {
+			if f {
+				chunks[0], chunks[i] = chunks[i], chunks[0]
+				faulty[0], faulty[i] = faulty[i], faulty[0]
+				break
+			}
+		}
+	}
+	var cuts []int
+	off := 0
+	for i, c := range chunks {
+		if i > 0 && faulty[i] {
+			cuts = append(cuts, off)
+		}
+		off += len(c) + 1 // joined with "\n"
+	}
+	return strings.Join(chunks, "\n"), cuts
 }
 
 // ---------- schema faults (for LoadSchema error determinism) ----------
@@ -896,6 +932,14 @@ func (s *GSchema) Render(r *Rng) string {
 // it meets, so whether that choice is stable shows only with several candidates.
 func InjectSchemaFaults(r *Rng, s *GSchema, n int) {
 	usedT := map[string]bool{}
+	defer func() {
+		if s.FaultyTypes == nil {
+			s.FaultyTypes = map[string]bool{}
+		}
+		for k := range usedT {
+			s.FaultyTypes[k] = true
+		}
+	}()
 	pickT := func(kinds ...string) *GType {
 		c := s.byKind(kinds...)
 		for try := 0; try < 8 && len(c) > 0; try++ {
